@@ -8,6 +8,7 @@ const EXTENSIONS: &[fn(&str, &Value) -> Option<Value>] = &[
     crate::ops_lex::dispatch,
     crate::ops_json::dispatch,
     crate::ops_hooks::dispatch,
+    crate::ops_pure::dispatch,
 ];
 
 pub fn s<'a>(req: &'a Value, k: &str) -> &'a str {
